@@ -14,11 +14,16 @@ package llrp
 //        type <pre> (61/62/63) carrying the request's id and a status-shaped payload with code 777, then the
 //        real reply of type <exp> with the given status)
 // desc: "-" or hex; fe: "-" or idx.code; pe: "-" or comma-joined levels ptype.code[.idx.fcode];
-// mode: z = response value passed to SendFor is the zero value, s = pre-filled with a sentinel.
+// mode: z = response value passed to SendFor is the zero value, s = pre-filled with a sentinel; optionally followed by
+//   order flags P (top-level ParameterError before FieldError) and I (likewise inside every ParameterError).
+//   c <perm> <gomaxprocs> <n> then n x (<exp> <act> <code> <desc> <fe> <pe> <mode>): n SendFor calls in flight on one
+//        Client (TCP loopback); the peer collects the n requests and writes the n replies in ONE write, in the order
+//        given by the digits of <perm>; the answer line holds the n answers separated by " | ".
 // answer: <cls> <code> <desc> <fe> <pe> <same|changed> <in_code> <in_desc> <in_fe> <in_pe>
 //   cls = nil | status | other | timeout | panic | skipped (see c12BrokenBudget)
 
 import (
+	"bufio"
 	"context"
 	"encoding/hex"
 	"errors"
@@ -26,8 +31,10 @@ import (
 	"io"
 	"net"
 	"reflect"
+	"runtime"
 	"strconv"
 	"strings"
+	"sync"
 	"testing"
 	"time"
 )
@@ -58,30 +65,44 @@ func c12feTLV(idx, code uint16) []byte {
 	return c12tlv(288, append(c12be16(idx), c12be16(code)...))
 }
 
-// ParameterError (289): ParameterType u16, ErrorCode u16, FieldError?, ParameterError?
-func c12peTLV(levels []c12Level) []byte {
+// ParameterError (289): ParameterType u16, ErrorCode u16, then the optional FieldError and nested
+// ParameterError — FieldError first (LLRP layout) or, with peFirst, ParameterError first (the order of the Go
+// struct); the generated decoder accepts the two optional sub-parameters in either order.
+func c12peTLV(levels []c12Level, peFirst bool) []byte {
 	var inner []byte
 	for k := len(levels) - 1; k >= 0; k-- {
 		l := levels[k]
 		body := append(c12be16(l.ptype), c12be16(l.code)...)
+		if peFirst {
+			body = append(body, inner...)
+		}
 		if l.hasFE {
 			body = append(body, c12feTLV(l.fidx, l.fcode)...)
 		}
-		body = append(body, inner...)
+		if !peFirst {
+			body = append(body, inner...)
+		}
 		inner = c12tlv(289, body)
 	}
 	return inner
 }
 
 // LLRPStatus (287): StatusCode u16, ErrorDescription (u16 byte count + bytes), FieldError?, ParameterError?
-func c12statusTLV(code uint16, desc []byte, fe *c12Level, pe []c12Level) []byte {
+// order flags (letters after the first character of the request's mode token):
+//
+//	P = at the top level the ParameterError precedes the FieldError; I = the same inside every ParameterError
+func c12statusTLV(code uint16, desc []byte, fe *c12Level, pe []c12Level, flags string) []byte {
 	body := append(c12be16(code), c12be16(uint16(len(desc)))...)
 	body = append(body, desc...)
+	peFirst := strings.Contains(flags, "P")
+	if peFirst && len(pe) > 0 {
+		body = append(body, c12peTLV(pe, strings.Contains(flags, "I"))...)
+	}
 	if fe != nil {
 		body = append(body, c12feTLV(fe.fidx, fe.fcode)...)
 	}
-	if len(pe) > 0 {
-		body = append(body, c12peTLV(pe)...)
+	if !peFirst && len(pe) > 0 {
+		body = append(body, c12peTLV(pe, strings.Contains(flags, "I"))...)
 	}
 	return c12tlv(287, body)
 }
@@ -186,9 +207,12 @@ const (
 )
 
 // request with an empty payload of a given type
-type c12Out struct{ typ MessageType }
+type c12Out struct {
+	typ  MessageType
+	data []byte
+}
 
-func (o c12Out) MarshalBinary() ([]byte, error) { return nil, nil }
+func (o c12Out) MarshalBinary() ([]byte, error) { return o.data, nil }
 func (o c12Out) Type() MessageType              { return o.typ }
 
 func c12Sentinel() LLRPStatus {
@@ -206,7 +230,7 @@ func c12Instance(exp MessageType, mode string) Incoming {
 	if in == nil {
 		return nil
 	}
-	if mode == "s" {
+	if strings.HasPrefix(mode, "s") {
 		f := reflect.ValueOf(in).Elem().FieldByName("LLRPStatus")
 		if f.IsValid() && f.CanSet() {
 			f.Set(reflect.ValueOf(c12Sentinel()))
@@ -255,10 +279,7 @@ func (s *c12Session) exchange(exp, act MessageType, payload []byte, mode string,
 	}
 	// the request's own type does not matter to C12. CloseConnection is avoided: after sending it the
 	// client's writer deliberately stops serving further requests.
-	reqT, ok := exp.Converse()
-	if !ok || reqT == MsgCloseConnection {
-		reqT = MsgCustomMessage
-	}
+	reqT := c12ReqType(exp)
 	s.script <- c12Reply{typ: uint16(act), payload: payload, pre: pre}
 	ctx, cancel := context.WithTimeout(context.Background(), timeout)
 	var err error
@@ -271,7 +292,7 @@ func (s *c12Session) exchange(exp, act MessageType, payload []byte, mode string,
 				panicked = true
 			}
 		}()
-		err = s.client.SendFor(ctx, c12Out{reqT}, in)
+		err = s.client.SendFor(ctx, c12Out{typ: reqT}, in)
 	}()
 	// SendFor honours ctx while it waits for the reply; a hang after the reply arrived (e.g. in a decoder) would
 	// not: give up on the call after a grace period and leave its goroutine behind.
@@ -284,6 +305,18 @@ func (s *c12Session) exchange(exp, act MessageType, payload []byte, mode string,
 		return "timeout - - - - same - - - -", true
 	}
 	cancel()
+	return c12Answer(err, panicked, in, before)
+}
+
+func c12ReqType(exp MessageType) MessageType {
+	reqT, ok := exp.Converse()
+	if !ok || reqT == MsgCloseConnection {
+		reqT = MsgCustomMessage
+	}
+	return reqT
+}
+
+func c12Answer(err error, panicked bool, in, before Incoming) (line string, broken bool) {
 	cls, fields := "other", "- - - -"
 	var se *StatusError
 	switch {
@@ -307,6 +340,167 @@ func (s *c12Session) exchange(exp, act MessageType, payload []byte, mode string,
 		inFields = c12FmtStatus(ls.Status, ls.ErrorDescription, ls.FieldError, ls.ParameterError)
 	}
 	return cls + " " + fields + " " + same + " " + inFields, broken
+}
+
+// ---- several SendFor calls in flight on one Client; replies written back to back in one TCP write ----
+
+type c12ConcCase struct {
+	exp, act MessageType
+	payload  []byte
+	mode     string
+}
+
+type c12Batch struct {
+	replies []c12Reply
+	perm    []int
+}
+
+type c12Conc struct {
+	client   *Client
+	ln       net.Listener
+	cconn    net.Conn
+	pconn    net.Conn
+	script   chan c12Batch
+	peerDone chan struct{}
+	connDone chan struct{}
+}
+
+func c12NewConc() (*c12Conc, error) {
+	s := &c12Conc{script: make(chan c12Batch, 1), peerDone: make(chan struct{}), connDone: make(chan struct{})}
+	var err error
+	if s.ln, err = net.Listen("tcp", "127.0.0.1:0"); err != nil {
+		return nil, err
+	}
+	acc := make(chan net.Conn, 1)
+	go func() {
+		c, _ := s.ln.Accept()
+		acc <- c
+	}()
+	if s.cconn, err = net.Dial("tcp", s.ln.Addr().String()); err != nil {
+		s.ln.Close()
+		return nil, err
+	}
+	if s.pconn = <-acc; s.pconn == nil {
+		s.ln.Close()
+		return nil, errors.New("accept failed")
+	}
+	s.client = NewClient(WithVersion(Version1_0_1), WithLogger(nil))
+	go s.peer()
+	go func() {
+		defer close(s.connDone)
+		_ = s.client.Connect(s.cconn)
+	}()
+	return s, nil
+}
+
+func (s *c12Conc) peer() {
+	defer close(s.peerDone)
+	ts := c12tlv(128, []byte{0, 0, 0, 0, 0, 0, 0, 1})
+	cae := c12tlv(256, []byte{0, 0})
+	if _, err := s.pconn.Write(c12frame(63, 0, c12tlv(246, append(ts, cae...)))); err != nil {
+		return
+	}
+	rd := bufio.NewReader(s.pconn)
+	hdr := make([]byte, 10)
+	for b := range s.script {
+		ids := make([]uint32, len(b.replies))
+		for got := 0; got < len(b.replies); {
+			if _, err := io.ReadFull(rd, hdr); err != nil {
+				return
+			}
+			typ := uint16(hdr[0]&3)<<8 | uint16(hdr[1])
+			total := uint32(hdr[2])<<24 | uint32(hdr[3])<<16 | uint32(hdr[4])<<8 | uint32(hdr[5])
+			id := uint32(hdr[6])<<24 | uint32(hdr[7])<<16 | uint32(hdr[8])<<8 | uint32(hdr[9])
+			if total < 10 {
+				return
+			}
+			body := make([]byte, total-10)
+			if _, err := io.ReadFull(rd, body); err != nil {
+				return
+			}
+			if typ == 72 || len(body) != 1 || int(body[0]) >= len(ids) {
+				continue
+			}
+			ids[body[0]] = id // the request's one payload byte says whose request it is
+			got++
+		}
+		var all []byte
+		for _, k := range b.perm {
+			all = append(all, c12frame(b.replies[k].typ, ids[k], b.replies[k].payload)...)
+		}
+		if _, err := s.pconn.Write(all); err != nil { // all replies in one write
+			return
+		}
+	}
+}
+
+func (s *c12Conc) close() {
+	_ = s.client.Close()
+	_ = s.pconn.Close()
+	_ = s.cconn.Close()
+	_ = s.ln.Close()
+	select {
+	case <-s.peerDone:
+	case <-time.After(2 * time.Second):
+	}
+	select {
+	case <-s.connDone:
+	case <-time.After(2 * time.Second):
+	}
+}
+
+func (s *c12Conc) round(cases []c12ConcCase, perm []int, timeout time.Duration) (answers []string, broken bool) {
+	n := len(cases)
+	answers = make([]string, n)
+	brk := make([]bool, n)
+	b := c12Batch{perm: perm}
+	for _, c := range cases {
+		b.replies = append(b.replies, c12Reply{typ: uint16(c.act), payload: c.payload})
+	}
+	s.script <- b
+	ctx, cancel := context.WithTimeout(context.Background(), timeout)
+	defer cancel()
+	var wg sync.WaitGroup
+	for i := range cases {
+		wg.Add(1)
+		go func(i int) {
+			defer wg.Done()
+			c := cases[i]
+			in, before := c12Instance(c.exp, c.mode), c12Instance(c.exp, c.mode)
+			if in == nil {
+				answers[i] = "error: no instance for expected type"
+				return
+			}
+			var err error
+			panicked := false
+			func() {
+				defer func() {
+					if r := recover(); r != nil {
+						panicked = true
+					}
+				}()
+				err = s.client.SendFor(ctx, c12Out{typ: c12ReqType(c.exp), data: []byte{byte(i)}}, in)
+			}()
+			answers[i], brk[i] = c12Answer(err, panicked, in, before)
+		}(i)
+	}
+	finished := make(chan struct{})
+	go func() { wg.Wait(); close(finished) }()
+	hard := time.NewTimer(timeout + time.Second)
+	defer hard.Stop()
+	select {
+	case <-finished:
+	case <-hard.C:
+		out := make([]string, n)
+		for i := range out {
+			out[i] = "timeout - - - - same - - - -"
+		}
+		return out, true
+	}
+	for _, x := range brk {
+		broken = broken || x
+	}
+	return answers, broken
 }
 
 func c12ParseU16(s string) (uint16, error) {
@@ -366,8 +560,8 @@ func c12ParseShape(desc, fe, pe string) (d []byte, f *c12Level, p []c12Level, er
 // payload of a reply of type act to a request expecting exp, carrying the given status:
 // laid out as the message that SendFor would decode it as (or, for an unrelated reply type, as
 // the expected type — so that a wrong decode into the response value would succeed and show)
-func c12Payload(exp, act MessageType, code uint16, d []byte, f *c12Level, p []c12Level) ([]byte, error) {
-	st := c12statusTLV(code, d, f, p)
+func c12Payload(exp, act MessageType, code uint16, d []byte, f *c12Level, p []c12Level, flags string) ([]byte, error) {
+	st := c12statusTLV(code, d, f, p, flags)
 	if len(st) > 65535 {
 		return nil, errors.New("status parameter longer than 65535 bytes")
 	}
@@ -387,6 +581,14 @@ func TestVerifC12(t *testing.T) {
 	s := c12NewSession()
 	defer func() { s.close() }()
 	nBroken := 0
+	var cs *c12Conc
+	defGMP, curGMP := runtime.GOMAXPROCS(0), 0
+	defer func() {
+		runtime.GOMAXPROCS(defGMP)
+		if cs != nil {
+			cs.close()
+		}
+	}()
 	for _, line := range lines {
 		tok := strings.Fields(line)
 		switch {
@@ -416,12 +618,12 @@ func TestVerifC12(t *testing.T) {
 			}
 			d, f, p, e4 := c12ParseShape(rest[0], rest[1], rest[2])
 			mode := rest[3]
-			if e1 != nil || e2 != nil || e3 != nil || e4 != nil {
+			if e1 != nil || e2 != nil || e3 != nil || e4 != nil || mode == "" {
 				fmt.Fprintln(w, "error: bad request")
 				continue
 			}
 			for c := int(lo); c < hi; c++ {
-				payload, err := c12Payload(MessageType(exp), MessageType(act), uint16(c), d, f, p)
+				payload, err := c12Payload(MessageType(exp), MessageType(act), uint16(c), d, f, p, mode[1:])
 				if err != nil {
 					fmt.Fprintln(w, "error: "+err.Error())
 					continue
@@ -433,10 +635,10 @@ func TestVerifC12(t *testing.T) {
 				var pre *c12Reply
 				replyT := MessageType(act)
 				if tok[0] == "u" { // act names the reader-initiated frame; the real reply has the expected type
-					decoy, _ := c12Payload(MessageType(exp), MessageType(exp), 777, []byte("decoy"), &c12Level{hasFE: true, fidx: 5, fcode: 6}, nil)
+					decoy, _ := c12Payload(MessageType(exp), MessageType(exp), 777, []byte("decoy"), &c12Level{hasFE: true, fidx: 5, fcode: 6}, nil, "")
 					pre = &c12Reply{typ: act, payload: decoy}
 					replyT = MessageType(exp)
-					payload, _ = c12Payload(MessageType(exp), MessageType(exp), uint16(c), d, f, p)
+					payload, _ = c12Payload(MessageType(exp), MessageType(exp), uint16(c), d, f, p, mode[1:])
 				}
 				ans, broken := s.exchange(MessageType(exp), replyT, payload, mode, pre, c12Timeout)
 				if broken && strings.HasPrefix(ans, "timeout") {
@@ -450,6 +652,73 @@ func TestVerifC12(t *testing.T) {
 					s.close()
 					s = c12NewSession()
 				}
+			}
+		case len(tok) >= 4 && tok[0] == "c":
+			n, e1 := strconv.Atoi(tok[3])
+			gmp, e2 := strconv.Atoi(tok[2])
+			if e1 != nil || e2 != nil || n < 1 || n > 9 || len(tok) != 4+7*n || len(tok[1]) != n {
+				fmt.Fprintln(w, "error: bad request")
+				continue
+			}
+			var cases []c12ConcCase
+			var perm []int
+			bad := false
+			for i := 0; i < n; i++ {
+				q := tok[4+7*i:]
+				exp, e1 := c12ParseU16(q[0])
+				act, e2 := c12ParseU16(q[1])
+				code, e3 := c12ParseU16(q[2])
+				d, f, p, e4 := c12ParseShape(q[3], q[4], q[5])
+				k := int(tok[1][i] - '0')
+				if e1 != nil || e2 != nil || e3 != nil || e4 != nil || q[6] == "" || k < 0 || k >= n {
+					bad = true
+					break
+				}
+				payload, err := c12Payload(MessageType(exp), MessageType(act), code, d, f, p, q[6][1:])
+				if err != nil {
+					bad = true
+					break
+				}
+				cases = append(cases, c12ConcCase{MessageType(exp), MessageType(act), payload, q[6]})
+				perm = append(perm, k)
+			}
+			if bad {
+				fmt.Fprintln(w, "error: bad request")
+				continue
+			}
+			if nBroken >= c12BrokenBudget {
+				fmt.Fprintln(w, strings.Repeat("skipped - - - - same - - - - | ", n-1)+"skipped - - - - same - - - -")
+				continue
+			}
+			if gmp != curGMP { // 0 = the process default
+				if gmp > 0 {
+					runtime.GOMAXPROCS(gmp)
+				} else {
+					runtime.GOMAXPROCS(defGMP)
+				}
+				curGMP = gmp
+			}
+			if cs == nil {
+				var err error
+				if cs, err = c12NewConc(); err != nil {
+					fmt.Fprintln(w, "error: "+err.Error())
+					continue
+				}
+			}
+			ans, broken := cs.round(cases, perm, c12Timeout)
+			if broken {
+				cs.close()
+				if cs, _ = c12NewConc(); cs != nil {
+					ans, broken = cs.round(cases, perm, c12RetryTimeout)
+				}
+			}
+			fmt.Fprintln(w, strings.Join(ans, " | "))
+			if broken {
+				nBroken++
+				if cs != nil {
+					cs.close()
+				}
+				cs = nil
 			}
 		default:
 			fmt.Fprintln(w, "error: bad request")
